@@ -4,7 +4,7 @@ import json
 import random
 
 from . import crash as C
-from .hist import Lifetimes
+from .hist import Lifetimes, must_ok
 from .node import NodeDied
 
 RULE = ("the C01 history templates (incl. restart after compaction emptied L0, empty flushes, crash leftovers) are replayed with an @fs "
@@ -12,7 +12,10 @@ RULE = ("the C01 history templates (incl. restart after compaction emptied L0, e
         "at every flush/compaction step point (hook snapshots) and after every crash + restart; monitor: (i) files of a published "
         "segment never change/appear/disappear while it stays published, (ii) a directory that existed unpublished at start-up never "
         "becomes published later (ids are fresh), (iii) every segment named by the live list or the index has its .zones/.idx/.icx "
-        "and core column files; distinct_nontrivial counts distinct (template, crash point | 'nocrash') runs with >=1 published segment")
+        "and core column files; plus multi-type histories (three event types in different subsets of segments, several compaction "
+        "batches with different inputs per round) where every step-point snapshot also carries the decoded on-disk index, so a segment "
+        "published and touched again inside one compaction command is seen; distinct_nontrivial counts distinct (template, crash "
+        "point | 'nocrash') runs with >=1 published segment")
 
 CORE_COLS = ("context_id", "event_id", "event_type", "timestamp")
 
@@ -32,6 +35,8 @@ class Monitor:
     def __init__(self, res, sig, witness):
         self.res, self.sig, self.witness = res, sig, witness
         self.pub = {}        # (shard, seg) -> manifest at first publication
+        self.pub_sizes = {}  # (shard, seg) -> {file: size} at the first step point at which the on-disk index named it
+        self.step_published = 0
         self.leftover = {}   # shard -> set of unpublished non-empty dirs seen at start-up
         self.obs = 0
         self.published_ever = 0
@@ -91,6 +96,13 @@ class Monitor:
                 key = (s, seg)
                 man = {n: (v[0], v[1]) for n, v in files.items()}
                 if key not in self.pub:
+                    seen = self.pub_sizes.get(key)
+                    if seen is not None:
+                        now = {n: v[0] for n, v in man.items()}
+                        if now != seen:
+                            changed = sorted(n for n in set(seen) | set(now) if seen.get(n) != now.get(n))
+                            self.v("published_segment_changed", {"change": "after_step_point", "where_kind": where.split(":")[0]},
+                                   f"shard {s} at {where}: segment {seg} differs from what it held when the index first named it: {changed[:6]}")
                     self.pub[key] = man
                     self.published_ever += 1
                 else:
@@ -103,6 +115,8 @@ class Monitor:
                         self.pub[key] = man
             for key in [k for k in self.pub if k[0] == s and k[1] not in named]:
                 del self.pub[key]    # retired as a whole (files may now go away)
+            for key in [k for k in self.pub_sizes if k[0] == s and k[1] not in named]:
+                del self.pub_sizes[key]
 
     def hook_snaps(self, snaps, where):
         """Manifests recorded by the hook at step points (no hash): published segments' sizes / inodes must not change."""
@@ -115,14 +129,43 @@ class Monitor:
                 if len(parts) == 3 and parts[0].startswith("shard-") and parts[1].isdigit():
                     per_shard.setdefault((int(parts[0][6:]), parts[1]), {})[parts[2]] = f["s"]
             self.obs += 1
+            # the segments the on-disk index named before and after the directory walk of this snapshot
+            named_by_shard = {}
+            ia, ib = sn.get("index") or {}, sn.get("index_before") or {}
+            for sid, entries in ia.items():
+                eb = ib.get(sid)
+                if isinstance(entries, list) and isinstance(eb, list):
+                    named_by_shard[int(sid)] = {"%05d" % e["id"] for e in entries} & {"%05d" % e["id"] for e in eb}
             for key, old in self.pub.items():
                 cur = per_shard.get(key)
                 if cur is None:
                     continue   # retirement in progress is judged at the next command boundary
+                if key[0] in named_by_shard and key[1] not in named_by_shard[key[0]]:
+                    continue   # retired: the reclaim task may be moving the directory while the snapshot walks it
                 diff = sorted(n for n in set(old) | set(cur) if (old.get(n) or (None,))[0] != cur.get(n))
                 if diff:
                     self.v("published_segment_changed", {"change": "at_step_point", "where_kind": "hook"},
                            f"at {sn['point']} ({where}): shard {key[0]} segment {key[1]}: {diff[:6]}")
+            # segments that the on-disk index names at this step point (publication inside one command)
+            for sid, named_now in named_by_shard.items():
+                for key in [k for k in self.pub_sizes if k[0] == sid and k[1] not in named_now]:
+                    del self.pub_sizes[key]
+                for seg in named_now:
+                    key = (sid, seg)
+                    cur = per_shard.get(key)
+                    if cur is None or key in self.pub:
+                        continue
+                    old = self.pub_sizes.get(key)
+                    if old is None:
+                        self.pub_sizes[key] = dict(cur)
+                        self.step_published += 1
+                    elif old != cur:
+                        diff = sorted(n for n in set(old) | set(cur) if old.get(n) != cur.get(n))
+                        kinds = {"added" if n not in old else "removed" if n not in cur else "modified" for n in diff}
+                        self.v("published_segment_changed", {"change": "at_step_point:" + "+".join(sorted(kinds)), "where_kind": "hook"},
+                               f"at {sn['point']} ({where}): shard {sid} segment {seg} was named by the index at an earlier step point "
+                               f"and changed since: {diff[:6]}")
+                        self.pub_sizes[key] = dict(cur)
 
 
 def history_task(task, wdir, res):
@@ -172,6 +215,66 @@ def history_task(task, wdir, res):
         res.sample({"template": task["tmpl"], "config": cfg, "crash": crash, "observations": mon.obs, "segments_published": mon.published_ever})
     finally:
         lt.stop()
+
+
+def multitype_task(task, wdir, res):
+    """Several event types living in different subsets of segments: one compaction round plans several batches with different
+    input sets on the same level; every step point of the round is a (size-level) observation of what the index names."""
+    import time
+    from . import c05
+    rng = random.Random(task["seed"])
+    cfg = c05.gen_cfg(rng)
+    steps, ctxs, k = c05.build_history(rng, cfg)
+    lt = Lifetimes(wdir, **cfg)
+    node = lt.start()
+    res.count("tasks")
+    witness = {"mode": "multitype", "seed": task["seed"], "config": cfg, "steps": steps}
+    sig = {"template": "multitype", "group": "nocrash"}
+    mon = Monitor(res, sig, witness)
+    try:
+        for d in c05.TYPES.values():
+            must_ok(node.cmd(d), "define")
+        node.meta("snap on fl.,fr.,zw.,idx.,wc.,cw.,mc.,ho.,rc.")
+        for i, st in enumerate(steps):
+            c05.apply_steps(node, [st])
+            if st[0] == "flush":
+                mon.hook_snaps(node.meta("snap take")["snaps"], f"step {i} flush")
+                mon.observe(node.meta("fs hash"), f"cmd:{i}:flush")
+        rounds = 0
+        for rnd in range(4):
+            results = lt.compact_all(1)
+            time.sleep(0.15)
+            nplans = sum(r.get("plans", 0) for r in results)
+            mon.hook_snaps(node.meta("snap take")["snaps"], f"round {rnd}")
+            mon.observe(node.meta("fs hash"), f"cmd:round{rnd}:compact")
+            if not nplans:
+                break
+            rounds += 1
+            res.add_set("round_shapes", f"{cfg['segments_per_merge']}:{min(nplans, 6)}")
+            extra = []
+            for _ in range(rng.randint(0, 3)):
+                k += 1; extra.append(("store", rng.choice(["ta", "tb", "tc"]), rng.choice(ctxs), k))
+            if extra:
+                extra.append(("flush",))
+                c05.apply_steps(node, extra)
+                mon.hook_snaps(node.meta("snap take")["snaps"], f"after round {rnd} flush")
+                mon.observe(node.meta("fs hash"), f"cmd:round{rnd}:flush")
+        node.meta("snap off")
+        node = lt.restart_clean()
+        mon.at_startup(node.meta("fs hash"))
+        res.evaluations += mon.obs
+        res.count("observations", mon.obs)
+        res.count("segments_published", mon.published_ever)
+        res.count("segments_first_seen_at_step_point", mon.step_published)
+        if rounds:
+            res.nontrivial(("multitype", gen_desc(cfg), rounds))
+        res.sample({"mode": "multitype", "config": cfg, "rounds": rounds, "observations": mon.obs, "step_published": mon.step_published})
+    finally:
+        lt.stop()
+
+
+def gen_desc(cfg):
+    return "s%d/z%d/f%d/m%d" % (cfg["shard_count"], cfg["event_per_zone"], cfg["fill_factor"], cfg["segments_per_merge"])
 
 
 def overlap_task(task, wdir, res):
@@ -289,11 +392,16 @@ def run(run):
             for pnt in pts:
                 otasks.append({"name": f"ov-{side}-{pnt}-{rep}", "seed": run.rng("ov", side, pnt, rep).getrandbits(40), "side": side, "point": pnt})
     run.parallel(overlap_task, otasks)
+    nm = 12 if quick else 160
+    run.parallel(multitype_task, [{"name": f"mt{i}", "seed": run.rng("mt", i).getrandbits(40)} for i in range(nm)])
 
 
 def replay(run, path):
     with open(path) as f:
         w = json.load(f)["witness"]
+    if w.get("mode") == "multitype":
+        run.parallel(multitype_task, [{"name": "replay", "seed": w["seed"]}], nproc=1)
+        return
     if w.get("mode") == "overlap":
         run.parallel(overlap_task, [{"name": "replay", "seed": w["seed"], "side": w["parked"][0], "point": w["parked"][1]}], nproc=1)
         return
